@@ -103,3 +103,34 @@ func TestJournalErrorDoesNotReuseSequenceNumbers(t *testing.T) {
 		t.Fatalf("acknowledged write b=2 lost after reopen: value=%q err=%v", v, err)
 	}
 }
+
+// obligation leveldb.(*DB).writeLocked:assert(C08:failed-group-publishes-the-count-its-journal-record-carries ...)
+// Same as above with a failed group of several records: every sequence number its journal record carries must be
+// skipped, not one per batch. Otherwise the next acknowledged write shares a sequence number with a record of the
+// failed group and is hidden behind it (or dropped) when the journal is replayed.
+func TestFailedMultiRecordGroupSkipsAllItsSequenceNumbers(t *testing.T) {
+	fs := newFaultStorage()
+	o := &opt.Options{NoWriteMerge: true}
+	db, err := leveldb.Open(fs, o)
+	must(t, err)
+	must(t, db.Put([]byte("k"), []byte("v0"), &opt.WriteOptions{Sync: true}))
+	b := new(leveldb.Batch)
+	b.Put([]byte("x"), []byte("1"))
+	b.Put([]byte("y"), []byte("2"))
+	b.Put([]byte("k"), []byte("old"))
+	atomic.StoreInt32(fs.failSync[storage.TypeJournal], 1)
+	if err := db.Write(b, &opt.WriteOptions{Sync: true}); err == nil {
+		t.Skip("fault did not hit the journal sync")
+	}
+	must(t, db.Put([]byte("k"), []byte("new"), &opt.WriteOptions{Sync: true})) // acknowledged
+	must(t, db.Close())
+
+	db, err = leveldb.Open(fs, o)
+	if err != nil {
+		t.Fatalf("reopen failed: %v", err)
+	}
+	defer db.Close()
+	if v, err := db.Get([]byte("k"), nil); err != nil || string(v) != "new" {
+		t.Fatalf("acknowledged write k=new lost after reopen: value=%q err=%v", v, err)
+	}
+}
